@@ -57,6 +57,7 @@ import threading as _threading
 GATES: dict = {}       # name -> threading.Event
 MODES: dict = {}       # name -> 'ok' | 'retry' | 'pause' | 'child'
 CHILD_TASK = [None]
+GATED_TASK = [None]
 ENTERED: dict = {}     # name -> threading.Event set when the body has started
 
 
@@ -72,6 +73,8 @@ def gated(name: str) -> str:
         raise WorkflowPauseError("pause requested by the body")
     if mode == "child":
         return "child:" + str(CHILD_TASK[0](name + ".child").result)
+    if mode == "child-gated":       # the child is an invocation of this same gated task: it starts, then blocks on its own gate
+        return "child:" + str(GATED_TASK[0](name + ".child").result)
     return "done:" + name
 
 
